@@ -6,6 +6,7 @@ import (
 	"encoding/binary"
 	"encoding/hex"
 	"encoding/pem"
+	"errors"
 	"fmt"
 	"sort"
 	"strings"
@@ -268,7 +269,10 @@ func SSH1PrivateKey(info Info, data []byte) (Info, error) {
 	info.Description = "SSH v1 key"
 
 	priv, comment, err := ssh1.ParsePrivateKey(data, []byte(""))
-	if err != nil {
+	if errors.Is(err, ssh1.ErrCorrupted) && priv != nil {
+		// the private part is encrypted (or damaged); the public key and the comment are stored in the clear
+		info.Description = "SSH v1 key (private part encrypted or unreadable)"
+	} else if err != nil {
 		return info, fmt.Errorf("ssh1.ParsePrivateKey: %w", err)
 	}
 
